@@ -348,6 +348,13 @@ impl Cylinder3D {
             None => local_b,
         }
     }
+
+    /// Verification hook: read-only view of the private fields, in the order
+    /// `[radius, zmin, zmax, phi_max]` (`phi_max` as stored, i.e. in radians)
+    #[cfg(geometry3d_verif)]
+    pub fn verif_fields(&self) -> [Float; 4] {
+        [self.radius, self.zmin, self.zmax, self.phi_max]
+    }
 }
 
 #[cfg(test)]
